@@ -509,6 +509,21 @@ func errStr(err error) string {
 	return s
 }
 
+// UnixToFileMode converts permission bits incl. 04000/02000/01000 into an os.FileMode.
+func UnixToFileMode(m uint32) os.FileMode {
+	fm := os.FileMode(m & 0o777)
+	if m&0o4000 != 0 {
+		fm |= os.ModeSetuid
+	}
+	if m&0o2000 != 0 {
+		fm |= os.ModeSetgid
+	}
+	if m&0o1000 != 0 {
+		fm |= os.ModeSticky
+	}
+	return fm
+}
+
 func unixT(s int64) time.Time { return time.Unix(s, 0).UTC() }
 
 // Apply executes one op on the filesystem and applies the outcome-driven rule to the model.
@@ -739,7 +754,7 @@ func (d *Driver) Apply(op Op) error {
 		}
 	case "chmod":
 		mark(op.Path)
-		pi = core.Guard(func() { err = fs.Chmod(op.Path, os.FileMode(op.Mode)) })
+		pi = core.Guard(func() { err = fs.Chmod(op.Path, UnixToFileMode(op.Mode)) })
 		if pi == nil && err == nil {
 			if n := m.Lookup(op.Path); n != nil {
 				n.Attr.Mode, n.Attr.ModeSet = op.Mode, true
@@ -769,6 +784,24 @@ func (d *Driver) Apply(op Op) error {
 		}
 	default:
 		panic("fsdrive: unknown op " + op.Kind)
+	}
+	if pi == nil && err == nil {
+		switch op.Kind {
+		case "chmod", "chown", "chtimes", "hseek", "hclose", "open":
+		default:
+			// a mutation legitimately updates the times of the node and of its directory
+			for t := range targets {
+				if n := m.Lookup(t); n != nil {
+					n.Attr.TimesSet = false
+				}
+				parts := reftree.Split(t)
+				if len(parts) > 0 {
+					if n := m.Lookup(strings.Join(parts[:len(parts)-1], "/")); n != nil {
+						n.Attr.TimesSet = false
+					}
+				}
+			}
+		}
 	}
 	op.Err = errStr(err)
 	d.History = append(d.History, op)
